@@ -76,6 +76,10 @@ check("C08", "sequence numbers strictly increase", [
 check("C09", "the log replays exactly what was appended", [
     ob("VerifC09_RoundTripSmall", "pkg/wal", "<=2 appends with key/value lengths 0-2, all sync modes; replay equals appended", "<=2 entries, lengths 0..2"),
     ob("VerifC09_RoundTripBoundaries", "pkg/wal", "one put whose payload sits within +-2 bytes of the 32 KiB record limit (single record vs. fragments), followed by a small put", "value length MaxRecordSize-17-kl+[-2,2]"),
+    ob("VerifC09_FragmentBoundaries", "pkg/wal", "one large put within +-1 byte of every fragmenting boundary (spill-over of exactly one / two full records; key filling the first fragment; key spilling a full record) followed by a small put",
+       "4 shapes x 3 offsets, contents concrete pattern with symbolic probe bytes at both ends and at the chunk seams"),
+    ob("VerifC09_BatchBeyondBuffer", "pkg/wal", "0-2 buffered appends, then a batch below/above the 64 KiB log buffer, then an append; all sync modes; replay after close",
+       "batch of 2 or 3 entries of 30 KiB (sparse symbolic), 0..2 pending appends"),
     ob("VerifC09_Program", "pkg/wal", "programs of append/batch/close+reuse/rotate; GetEntriesFrom(symbolic s) and directory replay equal the appended operations",
        "<=3 steps", "<=4 steps"),
 ], [SIMFS, CLOCK, HASH, LOG, TIERA], ["entries > 33 KiB other than the boundary window", "32-bit int platforms"])
@@ -100,7 +104,11 @@ check("C12", "compaction preserves content; deleted keys stay deleted", [
 
 check("C13", "a replica applies the primary's log in order, exactly once", [
     ob("VerifC13_ApplyStepInductive", "pkg/replication", "one step of WALBatchApplier.ApplyEntries from an arbitrary cursor with an arbitrary batch and an apply function failing at a symbolic index", "<=3 entries per batch"),
-], [LOG, TIERA], ["codec internals", "gRPC framing"])
+    ob("VerifC13_DeliverySchedules", "pkg/replication", "a real Replica fed stream messages that are arbitrary sub-ranges of the primary log (duplicates, reordering, gaps, overlaps), optionally compressed, with one transient apply failure: applied history is always a prefix of the log, reported sequence monotone and never ahead, gaps answered by a retransmission request",
+       "log of <=2 operations, <=2 messages, codecs NONE/ZSTD, failure at call 0..2", "log of <=3 operations, <=3 messages, codecs NONE/ZSTD/SNAPPY", t={"budget_s": 1500}),
+    ob("VerifC13_SerializeRoundTrip", "pkg/replication", "Deserialize(Serialize(e)) = e for put/delete/merge with key/value lengths 0-2 and arbitrary sequence numbers; a payload cut at any point is rejected or denotes the same operation",
+       "key/value lengths 0..2, every cut position"),
+], [LOG, TIERA, "compression codecs: opaque pair Decompress(Compress(x)) = x, anything without the codec's frame magic is invalid"], ["codec internals", "gRPC framing", "the replica's timer-driven state machine (the data path is driven through processEntriesWithoutStateTransitions)"])
 
 check("C16", "a replica refuses client writes but keeps applying replicated ones", [
     ob("VerifC16_ReadOnlyRejects", "pkg/engine", "read-only EngineFacade: client mutators rejected, *Internal bypasses apply", "5 mutator shapes + bypasses"),
@@ -108,7 +116,11 @@ check("C16", "a replica refuses client writes but keeps applying replicated ones
 
 check("C17", "every transaction ends and releases the database", [
     ob("VerifC17_BeginTimeoutNoLeak", "pkg/transaction", "RegistryImpl.Begin timing out while another transaction holds the lock: no transaction is left holding the lock unreachable", "preemption bound 1", "preemption bound 2", q=P1, t=P2, no_validate=True),
-], [CLOCK, LOG, "Tier B scheduler; one-shot timers fire at a scheduler-chosen point"], [])
+    ob("VerifC17_TxCallSequences", "pkg/transaction", "every call sequence over one read-write or read-only transaction (Get/Put/Delete/scan/Commit/Rollback): lock held in the right mode until the first finish and free afterwards, every storage access under the lock, finish at most once, closed error and no effect afterwards, read-only refuses writes, own writes read back, exactly one last-op-wins batch at commit",
+       "<=4 calls, 2 keys", "<=5 calls"),
+    ob("VerifC17_RegistryCleanup", "pkg/transaction", "registry with two transactions of two connections, symbolic ages and idle times: the periodic cleanup body / CleanupConnection rolls back and unregisters exactly the expired / disconnected ones",
+       "2 read-only transactions, ages < 24 h, kept 2 s away from the limits (clock margin)"),
+], [CLOCK, LOG, "Tier B scheduler; one-shot timers fire at a scheduler-chosen point"], ["clients holding two transactions at once (excluded by the property)"])
 
 check("C19", "the network API behaves like the embedded API", [
     ob("VerifC19_PutGetDelete", "pkg/grpc/service", "service Put/Get/Delete handlers vs. embedded engine", "1 key"),
